@@ -12,6 +12,11 @@ CHECKS = {
    text="TLC proves Parse(Emit(p,o)) = p, NoDrop, ZIffClosed... for every lattice path (L/Q/C/A, closed by line or curve, S/T-smooth joints, several subpaths) and all 8 option combinations; each path is built as a real Path (integer, exact tiny/huge/halves affine images, nasty doubles; also paths that come out of the parser, then mutated) and parse_path(p.d(o)) must satisfy C01's relation; the text the real d() wrote is lexed by the reference grammar and its meaning under the spec must be the original segments.",
    note="Trusted: TLC, PathSem semantics, Python repr/float round trip. Relative form on non-dyadic doubles is compared with a 1e-9 relative tolerance (rounding not modelled). Zero-length Lines and null arcs excluded as the property says.",
    ref="4 (C01), 3.3"),
+ 'C05': dict(
+   technique="TLA+ lattice model of T <-> (k,t) <-> arc-length fractions and of continuous subpaths (TParam) model-checked with TLC; every (lengths, joints, T) case replayed on real Paths",
+   text="TLC checks RoundTripT, InOccupancy, TZeroOnlyAtStart, Monotone (walking T along the grid), RunsOK and ContIffOneRun for all paths of <= 3 (quick) / 4 (thorough) segments with lengths from a set containing 0 and 64; every case is realised as a real Path (uniform-speed Line/Quadratic/Cubic chains; mixed L/Q/C/A geometry for every joint pattern incl. the closing joint) and T2t, t2T, point, start/end, iscontinuous, isclosed, continuous_subpaths are compared with the model - exactly when all lengths are powers of two.",
+   note="Trusted: TLC; exact comparison only on dyadic chains, otherwise 1e-9/1e-12 tolerances (either side of a boundary accepted). Effects one ulp below T=1 (a rounding effect outside the lattice) are not decided.",
+   ref="4 (C05), 3.5"),
  'C16': dict(
    technique="TLA+ state machine of Path's mutators and caches (PathSeq) and of the per-segment length cache (SegCache) model-checked with TLC; every behaviour replayed on real objects and compared with fresh ones; recorded histories validated by PathSeq_Trace.tla",
    text="TLC checks CacheCoherent / AnswerFresh / MutInvalidates over all histories of the 15 mutator and query actions to depth 4 (quick) / 6 (thorough); every behaviour of a small configuration plus simulated long ones is replayed on a warm and a lazy real Path with every query compared with a freshly built Path and with the model after each step, with and without scipy; SegCache histories are replayed on real Cubic/Quadratic segments; random 60-step histories of real Paths are accepted by the trace spec, which demands the fresh answers.",
